@@ -99,6 +99,9 @@ type Violation struct {
 type Verdict struct {
 	Sig    string // narrow signature used for known-finding matching and de-duplication
 	Msg    string
+	// Volatile marks messages that quote measured quantities (heap sizes); the determinism guard
+	// then compares signatures only.
+	Volatile bool
 	Detail any
 }
 
@@ -315,7 +318,7 @@ func (e *explorer) record(c *Ctx, v *Verdict) {
 	e.mu.Unlock()
 	for r := 0; r < e.opt.Replays; r++ {
 		_, v2 := RunOne(e.body, viol.Choices)
-		if v2 == nil || v2.Sig != v.Sig || v2.Msg != v.Msg {
+		if v2 == nil || v2.Sig != v.Sig || (v2.Msg != v.Msg && !v.Volatile) {
 			e.mu.Lock()
 			e.st.Nondet = append(e.st.Nondet, fmt.Sprintf("choices %v: first verdict %q, replay verdict %v", viol.Choices, v.Msg, v2))
 			e.mu.Unlock()
